@@ -154,10 +154,11 @@ func (a argInfo) defSexp() sexp.Node {
 
 // (a DEFAULT SRC) / (a DEFAULT SRC nn)
 func (a argInfo) aform(src argSrc) sexp.Node {
+	flag := "n"
 	if a.nonnull {
-		return sexp.T("a", a.defSexp(), src.sexp(), sexp.Sym("nn"))
+		flag = "nn"
 	}
-	return sexp.T("a", a.defSexp(), src.sexp())
+	return sexp.T("a", a.defSexp(), src.sexp(), sexp.Sym(flag), sexp.Str(a.name))
 }
 
 type fieldInfo struct {
@@ -571,11 +572,12 @@ func selNode(s *sel) sexp.Node {
 		if fi == nil {
 			return sexp.T("u", kids...)
 		}
+		label := sexp.Str(s.scope + "." + s.name)
 		if fi.gen != nil {
 			cfd := sexp.T("gen", sexp.L(genDefs...), sexp.L(genArgs...), fi.gen.r, fi.gen.m, fi.gen.setc)
-			return sexp.T("f", append([]sexp.Node{cfd}, kids...)...)
+			return sexp.T("f", append([]sexp.Node{sexp.T("named", label, cfd)}, kids...)...)
 		}
-		return sexp.T("f", append([]sexp.Node{fi.cfd(argForms)}, kids...)...)
+		return sexp.T("f", append([]sexp.Node{sexp.T("named", label, fi.cfd(argForms))}, kids...)...)
 	case kInline:
 		var kids []sexp.Node
 		if s.cond != "" {
@@ -819,6 +821,28 @@ func costFn(scope, name string) func(graphql.FieldCostContext) graphql.FieldCost
 
 var directSchema *graphql.Schema
 
+// the calls the cost functions of the direct schema receive, in order: (label, user context value,
+// argument map) — the cost functions are harness code, so what they are handed is observable
+var callLog []sexp.Node
+
+func recorded(label string, fn func(graphql.FieldCostContext) graphql.FieldCost) func(graphql.FieldCostContext) graphql.FieldCost {
+	if fn == nil {
+		return nil
+	}
+	return func(ctx graphql.FieldCostContext) graphql.FieldCost {
+		user := sexp.None()
+		if v, ok := ctx.Context.Value(userKey).(int); ok {
+			user = sexp.Some(sexp.Int(v))
+		}
+		args := map[string]interface{}{}
+		for k, v := range ctx.Arguments {
+			args[k] = v
+		}
+		callLog = append(callLog, sexp.L(sexp.Str(label), user, goValSexp(args, "map")))
+		return fn(ctx)
+	}
+}
+
 func buildDirectSchema() *graphql.Schema {
 	obj := &graphql.ObjectType{Name: "Obj"}
 	iface := &graphql.InterfaceType{Name: "I"}
@@ -836,9 +860,9 @@ func buildDirectSchema() *graphql.Schema {
 		for _, f := range fs {
 			def := &graphql.FieldDefinition{Type: typeOf(f.ret)}
 			if f.gen != nil {
-				def.Cost = genCostFn(f.name)
+				def.Cost = recorded(scope+"."+f.name, genCostFn(f.name))
 			} else {
-				def.Cost = costFn(scope, f.name)
+				def.Cost = recorded(scope+"."+f.name, costFn(scope, f.name))
 			}
 			if len(f.args) > 0 {
 				def.Arguments = map[string]*graphql.InputValueDefinition{}
@@ -1289,6 +1313,7 @@ func directCase(d *doc, opName string, vars map[string]interface{}, dc graphql.F
 	q := d.text()
 	assertShape(q, d.opsSexp(), d.fragsSexp())
 	var observed sexp.Node
+	var calls []sexp.Node
 	max := -1
 	std := 0
 	func() {
@@ -1298,7 +1323,9 @@ func directCase(d *doc, opName string, vars map[string]interface{}, dc graphql.F
 			}
 		}()
 		std = stdErrors(q)
+		callLog = nil
 		e0, a0 := validate(q, opName, vars, -1, dc, std)
+		calls = callLog
 		max = limit(a0)
 		e1, a1 := validate(q, opName, vars, max, dc, std)
 		observed = sexp.L(sexp.Int(e0), actualSexp(a0), sexp.Int(e1), actualSexp(a1))
@@ -1308,7 +1335,7 @@ func directCase(d *doc, opName string, vars map[string]interface{}, dc graphql.F
 		sexp.T("table", tableSexp()), sexp.T("opname", sexp.Str(opName)), sexp.T("vars", varsSexp(vars)),
 		sexp.T("ops", d.opsSexp()), sexp.T("frags", d.fragsSexp()), sexp.T("max", zint(max)),
 		sexp.T("conns", sexp.L()), sexp.T("observed", observed), sexp.T("std", sexp.Int(std)),
-		sexp.T("env", envSexp()), sexp.T("xvars", xvarsSexp(d, vars)), sexp.T("query", sexp.Str(q)))
+		sexp.T("env", envSexp()), sexp.T("xvars", xvarsSexp(d, vars)), sexp.T("calls", sexp.L(calls...)), sexp.T("query", sexp.Str(q)))
 }
 
 var defaultCosts = []graphql.FieldCost{{Resolver: 1}, {Resolver: 1}, {}, {Resolver: 2, Multiplier: 2}, {Resolver: 0, Multiplier: 1 << 31}, {Resolver: maxInt}}
